@@ -526,6 +526,93 @@ def run(only=None):
                 s.merge(acc)
         s.done()
 
+
+    if want("tms_shared_header_object_histories"):
+        # histories of two serialisations that share objects: the first header's flags must describe *this* serialisation whatever the
+        # header object (or the PDU object) was used for before.  Oracle: the octets of the second PDU built from fresh objects.
+        s = rep.sub("tms_shared_header_object_histories",
+                    "header form (2) x acknowledged x reserved x 2 addresses x all ordered pairs of optional-part values (acknowledgement: "
+                    "sequence number absent/0/5/31/32/127; availability: capability absent/0..3; text: 4 sequence numbers x encoding): "
+                    "(a) one FirstHeader object used for PDU A then PDU B, (b) PDU A edited in place into B, (c) a header the caller "
+                    "created with has_more_headers=True, (d) a serialisation that raised (sequence number 200) before B")
+
+        def fresh_octets(c):
+            return bytes(tms_build(c).as_bytes())
+
+        def header_for(c, more=False):
+            pdu = TMSPDUType[c["pdu"]]
+            if c["form"] == "enum":
+                return TMSFirstHeader(pdu_type=pdu, is_acknowledged=c["ack"], is_reserved=c["reserved"], has_more_headers=more)
+            return TMSFirstHeader(is_acknowledged=int(c["ack"]), is_reserved=int(c["reserved"]), is_control_message=bool(pdu.value[0]), pdu_type=pdu.value[1],
+                                  has_more_headers=more)
+
+        def kwargs_for(c):
+            kw = dict(address=c["address"])
+            if c["pdu"] == "SERVICE_AVAILABILITY":
+                kw["availability_header"] = None if c["cap"] is None else AvailabilitySecondHeader(capability=TMSDeviceCapability(c["cap"]))
+            else:
+                kw["sequence_number"] = c["sn"]
+                if c["pdu"] == "SIMPLE_TEXT_MESSAGE":
+                    kw["encoding"] = TMSEncoding.UCS2_LE if c["encoding"] else None
+                    kw["message"] = c["text"].encode("utf-16-le")
+            return kw
+
+        variants = {
+            "TMS_ACKNOWLEDGEMENT": [dict(sn=v) for v in (None, 0, 5, 31, 32, 127)],
+            "SERVICE_AVAILABILITY": [dict(cap=v) for v in (None, 0, 1, 2, 3)],
+            "SIMPLE_TEXT_MESSAGE": [dict(sn=v, encoding=e, text="ahoj") for v in (0, 31, 32, 127) for e in (False, True)],
+        }
+        for pdu_name, vs in variants.items():
+            for f in forms:
+                for a in (False, True):
+                    for r in (False, True):
+                        for ad in (b"", b"\x01\x02\x03"):
+                            base = dict(kind="tms", pdu=pdu_name, form=f, ack=a, reserved=r, address=ad)
+                            for va, vb in itertools.permutations(vs, 2):
+                                ca, cb = {**base, **va}, {**base, **vb}
+                                case = {"first": {k: (v.hex() if isinstance(v, bytes) else v) for k, v in ca.items()},
+                                        "second": {k: (v.hex() if isinstance(v, bytes) else v) for k, v in cb.items()}}
+                                try:
+                                    want_b = fresh_octets(cb)
+                                    # (a) shared header object
+                                    fh = header_for(ca)
+                                    TextMessagingService(first_header=fh, **kwargs_for(ca)).as_bytes()
+                                    got = bytes(TextMessagingService(first_header=fh, **kwargs_for(cb)).as_bytes())
+                                    if got != want_b:
+                                        s.violation("tms_octets_depend_on_what_the_header_object_was_used_for_before", {**case, "got": got.hex(), "want": want_b.hex()},
+                                                    "a PDU built on a FirstHeader object that served another PDU before serialises differently from the same PDU on a fresh header")
+                                    # (b) the PDU object edited in place
+                                    pa = TextMessagingService(first_header=header_for(ca), **kwargs_for(ca))
+                                    pa.as_bytes()
+                                    for k_, v_ in kwargs_for(cb).items():
+                                        setattr(pa, k_, v_)
+                                    got = bytes(pa.as_bytes())
+                                    if got != want_b:
+                                        s.violation("tms_octets_stale_after_pdu_edited_in_place", {**case, "got": got.hex(), "want": want_b.hex()})
+                                    # (c) the caller's own idea of has_more_headers does not leak into the wire
+                                    got = bytes(TextMessagingService(first_header=header_for(cb, more=True), **kwargs_for(cb)).as_bytes())
+                                    if got != want_b:
+                                        s.violation("tms_octets_depend_on_callers_has_more_headers_flag", {**case, "got": got.hex(), "want": want_b.hex()})
+                                    # (d) a failed serialisation before
+                                    if pdu_name != "SERVICE_AVAILABILITY":
+                                        fh = header_for(cb)
+                                        pe = TextMessagingService(first_header=fh, **{**kwargs_for(cb), "sequence_number": 200})
+                                        try:
+                                            pe.as_bytes()
+                                        except Exception:  # noqa: BLE001  (200 is outside the 7-bit range: any refusal is fine)
+                                            pass
+                                        got = bytes(TextMessagingService(first_header=fh, **kwargs_for(cb)).as_bytes())
+                                        if got != want_b:
+                                            s.violation("tms_octets_differ_after_an_earlier_serialisation_raised", {**case, "got": got.hex(), "want": want_b.hex()})
+                                    # and the octets parse back
+                                    back = TextMessagingService.from_bytes(want_b)
+                                    if bytes(back.as_bytes()) != want_b:
+                                        s.violation("tms_reserialised_octets_differ", case)
+                                except Exception as e:  # noqa: BLE001
+                                    s.violation("exception_tms_shared_objects:" + exc_sig(e), case, repr(e))
+                                s.case(nontrivial=True, calls=9, outcome=pdu_name, sample=case if len(s.samples) < 1 else None)
+        s.done()
+
     # ---- ARS ----
     if want("ars_registration"):
         ids = identifiers(T)
